@@ -57,7 +57,7 @@ theorem applyOps_deletes (g : Graph) : ∀ (rs : List Ref) (m : RefMap) (x : Ref
       · simp [h1, h2, RefMap.get_del_ne _ h2]
 
 theorem qOnly_mem {m : RefMap} {d : Dest} {c : Commit} (h : m.get (.q d) = some c) : Ref.q d ∈ qOnly m := by
-  unfold qOnly
+  rw [mem_qOnly]; unfold qRaw
   simp only [List.mem_map, List.mem_filter]
   exact ⟨(.q d, c), ⟨RefMap.get_mem h, rfl⟩, rfl⟩
 
@@ -103,7 +103,7 @@ theorem updateW_done_w (pr : PrInfo) : ∀ (ds : List Dest) (l : Loc) (prev : Co
     | none => exact hd
     | some t =>
       simp only
-      cases l.merge (.w d pr.src) [t, prev] with
+      cases l.mergeN pr.noOct (.w d pr.src) t prev with
       | none => exact hd
       | some l' =>
         simp only
